@@ -83,6 +83,15 @@ class FTPServer(object):
         names = self.tree.get(path.rstrip('/') + '/', [])
         lines = []
         for n in names:
+            if n.endswith('@'):
+                # a symbolic link: tree[path + 'name@'] is its target text
+                name = n[:-1]
+                target = self.tree.get(path.rstrip('/') + '/' + n, 'target')
+                if mlsd:
+                    lines.append('type=symlink;size=4;modify=20200101120000; {}'.format(name))
+                elif self.listing_style != 'msdos':
+                    lines.append('lrwxrwxrwx 1 user group {:>8} Jan  1  2020 {} -> {}'.format(len(target), name, target))
+                continue
             isdir = n.endswith('/')
             name = n.rstrip('/')
             full = path.rstrip('/') + '/' + name
